@@ -338,7 +338,7 @@ def run_c13(chk: Check) -> int:
     chk.model("proto", "MC_MeterProtocol", workers=8, coverage=True, timeout=600)
     replay_gen(chk)
     with mp.Pool(16) as pool:
-        res = pool.map(_mk, [(chk.seed * 1000 + 13 + i, 40 if quick else 500) for i in range(16)])
+        res = pool.map(_mk, [(chk.seed * 1000 + 13 + i, 40 if quick else 3000) for i in range(16)])
     traces = [t for r in res for t in r]
     traces += canaries(traces, chk.rng)
     verdicts = chk.judge("proto", "Trace_Proto", traces, what="c13-traces")
